@@ -106,6 +106,15 @@ R = [
  (r"cursor\.go:Decode:loop:for$", "lemma C05rob.resolve_depth: every iteration extends the path by path.step, which fails beyond MaxExtractDepth and on a repeated reference"),
  (r"cursor\.go:DecodeExclusive:assert:", "waiver (C18): cache and wip values are stored under the key (ref, TypeFor[T]) by this function and by Decode, so their dynamic type is T; a nil interface value would panic here (Decode uses the comma-ok form), the only instantiation (annotation/decode, T = *acroform.InteractiveForm) is a pointer type"),
  (r"cursor\.go:DecodeExclusive:index:x\.(cache|wip)\[", "map access"),
+ # ---------------- writer.go, types.go (sink path of C19)
+ (r"writer\.go:Writer\.Close:assert:w\.origW\.\(io\.Closer\)", "guard: closeOrigW is set only by Create, which passes an *os.File"),
+ (r"writer\.go:Writer\.Close:index:w\.meta\.ID\[[01]\]", "waiver: NewWriter stores nil or a two-element ID; a caller that replaces GetMeta().ID by a shorter slice makes Close panic (API misuse on the writing side, outside 'arbitrary input bytes'; recorded)"),
+ (r"writer\.go:Writer\.OpenStream:index:", "map access"),
+ (r"writer\.go:Writer\.WriteCompressed:index:objects\[N-1\]", "guard: len(objects) == 0 returns first and the splitting loop leaves at least one object, so N >= 1"),
+ (r"writer\.go:Writer\.WriteCompressed:index:(objects|refs)\[i\]", "guard: checkCompressed rejects len(refs) != len(objects); i ranges over objects, refs resp. N = len(objects)"),
+ (r"writer\.go:Writer\.WriteCompressed:loop:for len\(objects\) > maxObjStmObjects", "guard: every iteration removes maxObjStmObjects > 0 elements from objects"),
+ (r"writer\.go:Writer\.WriteCompressed:slice:", "guard: inside the loop len(objects) = len(refs) > maxObjStmObjects"),
+ (r"types\.go:Placeholder\.Set:assert:x\.pdf\.origW\.\(io\.WriteSeeker\)", "guard: x.pos is non-empty only if Placeholder.AsPDF took method 2, which tests origW.(io.WriteSeeker) with comma-ok first; len(x.pos) == 0 returns before the assertion"),
  # ---------------- error.go, pagetree
  (r"error\.go:MalformedFileError\.Error:index:err\.Loc\[i\]", "guard: i counts down from len(err.Loc)-1 to 0"),
  (r"pagetree/read\.go:.*:index:(seen|inherited|node)\[", "map access"),
